@@ -223,6 +223,10 @@ func (g *G) DataType(depth int) datatype.DataType {
 		return datatype.NewMap(g.DataType(depth-1), g.DataType(depth-1))
 	case 8:
 		n := g.Count(4)
+		if g.Big && g.R.Intn(3) == 0 {
+			// wide and shallow: dozens of fields (more type nodes in one column than any nesting depth reaches)
+			n, depth = 33+g.R.Intn(40), 0
+		}
 		fs := make([]datatype.DataType, n)
 		for i := range fs {
 			fs[i] = g.DataType(depth - 1)
@@ -230,6 +234,9 @@ func (g *G) DataType(depth int) datatype.DataType {
 		return datatype.NewTuple(fs...)
 	default:
 		n := g.Count(4)
+		if g.Big && g.R.Intn(3) == 0 {
+			n, depth = 33+g.R.Intn(40), 0
+		}
 		names := make([]string, n)
 		fs := make([]datatype.DataType, n)
 		for i := range fs {
